@@ -20,7 +20,8 @@ def parsePkg (j : Json) : Option RepoPkg := do
   let f ← getBool j "fetch"
   let t ← getBool j "targeted"
   let e ← getBool j "excluded"
-  pure ⟨d, f, t, e⟩
+  let b ← getBool j "broken"
+  pure ⟨d, f, t, e, b⟩
 
 def parseOpts (j : Json) : Option Opts := do
   let a ← getBool j "installed"
@@ -46,6 +47,6 @@ def handle : Handler := fun cmd j =>
     let repo ← ps.mapM parsePkg
     let opts ← (j.getObjVal? "opts").toOption >>= parseOpts
     let i : Input := ⟨files, selected, installed, repo, opts⟩
-    pure (Json.mkObj [("removed", toJson (removed i)), ("left", toJson (left i))])
+    pure (Json.mkObj [("aborted", toJson (aborts i)), ("removed", toJson ((run i).getD [])), ("left", toJson (leftAfter i))])
   | _ => none
 end Pkgcore.Driver.C46
